@@ -170,8 +170,9 @@ def _optimal_chain(prog, rep):
                 "emission is fragments[minima[pos].0 .. pos]", "start = minima[pos].0, end = pos",
                 "back-trace emits %s, expected fragments[minima[pos].0..pos]" % describe(piece, body)[:200], site=site)
         nxt = tr.next[m.pos_pk]
-        r.check(nxt == prev, "advance", "pos := minima[pos].0", "next(pos) = minima[pos].0",
-                "after an emission pos becomes %s instead of minima[pos].0" % describe(nxt, body)[:200], site=site)
+        dead = tr.kind == "exit" and not _read_after(body, m.bt, m.pos_pk[0])
+        r.check(nxt == prev or dead, "advance", "pos := minima[pos].0", "next(pos) = minima[pos].0" if not dead else
+                "pos is not read after the loop", "after an emission pos becomes %s instead of minima[pos].0" % describe(nxt, body)[:200], site=site)
         nfs = [fact_nf(f) for f in tr.facts if f[0][0] == "cmp"]
         if tr.kind == "exit":
             r.check(EQ0(poly(prev)) in nfs, "exit-cond", "the loop is left exactly when the new pos is 0",
@@ -207,8 +208,45 @@ def _optimal_chain(prog, rep):
     for eb in m.err_sites:
         facts = facts_at(prog, body, eb)
         okk = any(pol and a[0] == "b" and a[1][0] == "call" and a[1][1] == "f64::is_infinite" for a, pol in facts)
+        for a, pol in facts:
+            # minima.iter().any(|(_, cost)| cost.is_infinite())
+            if pol and a[0] == "b" and a[1][0] in ("call", "callm") and a[1][1] == "Iterator::any" and len(a[1][2]) == 2:
+                from ..engines.schemas import closure_return_term
+                cb, ret = closure_return_term(prog, a[1][2][1])
+                if cb is not None and ret[0] == "call" and ret[1] == "f64::is_infinite":
+                    okk = True
         r4.check(okk, "err-guard", "Err(OverflowError) only under is_infinite(cost)", "dominating guard",
                  "Err is returned on a path not guarded by cost.is_infinite()", site=site_of_block(body, eb))
+
+
+def _mentions_local(x, l):
+    if isinstance(x, dict):
+        if x.get("l") == l and ("p" in x or "ty" in x):
+            return True
+        return any(_mentions_local(v, l) for v in x.values())
+    if isinstance(x, list):
+        return any(_mentions_local(v, l) for v in x)
+    return False
+
+
+def _read_after(body, lm, local):
+    """Is the local read in a block reachable after leaving the loop?"""
+    seen = set()
+    work = [b for a, b in lm.lp["exits"]]
+    while work:
+        b = work.pop()
+        if b in seen or b in lm.blocks:
+            continue
+        seen.add(b)
+        blk = body.blocks[b]
+        for st in blk["stmts"]:
+            if st["k"] == "assign" and _mentions_local(st.get("rv"), local):
+                return True
+        t = blk["term"]
+        if _mentions_local({k: v for k, v in t.items() if k not in ("dest",)}, local):
+            return True
+        work.extend(body.cfg.succ[b])
+    return False
 
 
 def run(prog, rep):
